@@ -53,14 +53,14 @@ type simInformers struct {
 	f furikoinformers.SharedInformerFactory
 }
 
-func (i *simInformers) Start(context.Context) error                       { return nil }
-func (i *simInformers) Kubernetes() kubeinformers.SharedInformerFactory  { return i.k }
-func (i *simInformers) Furiko() furikoinformers.SharedInformerFactory    { return i.f }
-func (c *SimContext) Start(ctx context.Context) error                     { return nil }
-func (c *SimContext) Clientsets() controllercontext.Clientsets           { return c.clientsets }
-func (c *SimContext) Configs() controllercontext.Configs                 { return c.configs }
-func (c *SimContext) Stores() controllercontext.Stores                   { return c.stores }
-func (c *SimContext) Informers() controllercontext.Informers             { return &simInformers{c.Kube, c.Fur} }
+func (i *simInformers) Start(context.Context) error                     { return nil }
+func (i *simInformers) Kubernetes() kubeinformers.SharedInformerFactory { return i.k }
+func (i *simInformers) Furiko() furikoinformers.SharedInformerFactory   { return i.f }
+func (c *SimContext) Start(ctx context.Context) error                   { return nil }
+func (c *SimContext) Clientsets() controllercontext.Clientsets          { return c.clientsets }
+func (c *SimContext) Configs() controllercontext.Configs                { return c.configs }
+func (c *SimContext) Stores() controllercontext.Stores                  { return c.stores }
+func (c *SimContext) Informers() controllercontext.Informers            { return &simInformers{c.Kube, c.Fur} }
 
 func (c *SimContext) jobs() *DetInformer       { return c.Fur.get(&execution.Job{}) }
 func (c *SimContext) jobConfigs() *DetInformer { return c.Fur.get(&execution.JobConfig{}) }
@@ -133,23 +133,25 @@ type Options struct {
 
 // World is one simulated cluster plus one controller process and one webhook process.
 type World struct {
-	Opts   Options
-	Clock  *fakeclock.FakeClock
-	API    *API
-	Cfg    *mock.Configs
-	Ctrl   *SimContext // the execution-controller process (nil while crashed)
-	Hook   *SimContext // the execution-webhook process
+	Opts  Options
+	Clock *fakeclock.FakeClock
+	API   *API
+	Cfg   *mock.Configs
+	Ctrl  *SimContext // the execution-controller process (nil while crashed)
+	Hook  *SimContext // the execution-webhook process
 
 	QCron, QJob, QJobConfig, QPer, QInd *Queue
-	cCron, cJob, cJobConfig, cPer, cInd  *reconciler.Controller
-	CronWorker                           *croncontroller.CronWorker
-	cronCtx                              *croncontroller.Context
-	Store                                *activejobstore.Store
+	cCron, cJob, cJobConfig, cPer, cInd *reconciler.Controller
+	CronWorker                          *croncontroller.CronWorker
+	cronCtx                             *croncontroller.Context
+	Store                               *activejobstore.Store
 
 	Requests []CronRequest
 	Skips    []CronSkip
 	Ticks    int
 	Restarts int
+	Mid          *MidPlan // armed mid-reconcile delivery (see MidPlan)
+	MidDelivered int
 	// captured at every StartProcess
 	StartedAt        time.Time
 	PersistedAtStart map[string]time.Time // JobConfig key -> status.lastScheduled in the store at start
@@ -179,6 +181,7 @@ func NewWorld(o Options) *World {
 	mutation.Clock = w.Clock
 	validation.Clock = w.Clock
 	w.API = NewAPI(w.Clock, "ctrl", "hook")
+	w.API.MidHook = w.midHook
 	w.Cfg = mock.NewConfigs()
 	if err := w.Cfg.Start(context.Background()); err != nil {
 		panic(err)
@@ -403,6 +406,46 @@ func (w *World) StepQueue(q *Queue) bool {
 		w.Kill()
 	}
 	return true
+}
+
+// MidPlan: just before the AtCall-th next create/update issued by a controller,
+// up to Count (0 = all) pending events of Res reach the controller's cache - a
+// watch event overtaking a reconcile that is still running, as informer
+// goroutines do in production. One-shot.
+type MidPlan struct {
+	AtCall int `json:"atCall"`
+	Res    Res `json:"res"`
+	Count  int `json:"count,omitempty"`
+	seen   int
+}
+
+func (w *World) midHook() {
+	p := w.Mid
+	if p == nil || !w.Alive || w.Ctrl == nil || w.API.Actor == "informer" || w.API.Actor == "user" || w.API.Actor == "kubelet" {
+		return
+	}
+	p.seen++
+	if p.seen < p.AtCall {
+		return
+	}
+	w.Mid = nil
+	evs := w.API.Pending["ctrl"][p.Res]
+	n := p.Count
+	if n <= 0 || n > len(evs) {
+		n = len(evs)
+	}
+	if n == 0 {
+		return
+	}
+	w.API.Pending["ctrl"][p.Res] = evs[n:]
+	w.API.ShiftStepIdx("ctrl", p.Res, n)
+	actor := w.API.Actor
+	w.API.Actor = "informer"
+	for _, ev := range evs[:n] {
+		w.Ctrl.Informer(p.Res).Deliver(ev.Type, ev.Obj)
+	}
+	w.API.Actor = actor
+	w.MidDelivered += n
 }
 
 // CronTick runs one CronWorker.Work().
